@@ -310,6 +310,7 @@ func checkC16(p *Program, r *Report) {
 	}
 	// the generic accessor decodes elements with encode.TypeEncoder
 	checkCodecsAs(p, r, "C16")
+	checkEltEncoderType(p, r)
 }
 
 // checkRejectBeforeEffects: the return of the sentinel error cannot be reached
@@ -823,4 +824,72 @@ func checkEncodeAll(p *Program, r *Report) {
 		bad = append(bad, "no Encode call found")
 	}
 	r.Check(len(bad) == 0, "elements encoded by "+shortFn(F), p.Pos(F.Pos()), fmt.Sprintf("%d Encode call(s): loop 0..Len()-1 step 1, element at the index, appended unconditionally, no goroutine", nEnc), strings.Join(dedupStrings(sortStr(bad)), "; "))
+}
+
+// checkEltEncoderType (C16.elt-type): the generic array decodes elements with a TypeEncoder made for
+// the element type. Elements may be handed over in a []interface{}; their type is then only known
+// dynamically. Every construction of the element encoder in package array must therefore start from an
+// element value (v.Interface(), or reflect.TypeOf of it) — never from the static type of the slice
+// element ((reflect.Value).Type() of an indexed element, (reflect.Type).Elem()), which is interface{}
+// for such a list and makes a valid input fail with "not fixed size". Sibling constructions (Base.Init,
+// Array.Init, New) are judged by the same rule.
+func checkEltEncoderType(p *Program, r *Report) {
+	r.Rule("C16.elt-type", "SSA provenance", "element encoders are made from an element value, not from the static element type", 2)
+	r.Explanation += " (elt-type) every construction of the element encoder in package array starts from an element value, not from the static type of the slice element, so that elements handed over in a []interface{} are accepted like typed ones."
+	n := 0
+	for _, f := range p.FuncsOf(arrayPath) {
+		if f.Synthetic != "" || len(f.Blocks) == 0 {
+			continue
+		}
+		for _, c := range callsIn(f) {
+			call, ok := c.(*ssa.Call)
+			if !ok {
+				continue
+			}
+			g := calleeOf(call)
+			if g == nil || pkgPathOf(g) != encPath || !strings.HasPrefix(g.Name(), "NewTypeEncoder") || len(call.Call.Args) == 0 {
+				continue
+			}
+			n++
+			r.Func(shortFn(f))
+			construct := fmt.Sprintf("element encoder made in %s #%d", shortFn(f), n)
+			arg := call.Call.Args[0]
+			if !isNamed(arg.Type(), "reflect", "Type") {
+				r.OK(construct, p.Pos(call.Pos()), shortFn(g)+" on an element value")
+				continue
+			}
+			// a reflect.Type: where does it come from?
+			bad := ""
+			for v := range phiClosure(arg) {
+				src, ok := v.(*ssa.Call)
+				if !ok {
+					if mi, isMI := v.(*ssa.MakeInterface); isMI {
+						if s2, isCall := mi.X.(*ssa.Call); isCall {
+							src, ok = s2, true
+						}
+					}
+				}
+				if !ok {
+					bad = "a reflect.Type of unknown origin"
+					continue
+				}
+				id := funcID(calleeOf(src))
+				switch {
+				case id == "reflect.TypeOf":
+				case strings.HasSuffix(id, "reflect.Value).Type"), src.Call.IsInvoke() && src.Call.Method.Name() == "Elem":
+					bad = "the static type of a slice element (" + p.Pos(src.Pos()) + ")"
+				default:
+					if src.Call.IsInvoke() {
+						bad = "a reflect.Type derived by " + src.Call.Method.Name() + "()"
+					} else {
+						bad = "a reflect.Type returned by " + id
+					}
+				}
+			}
+			r.Check(bad == "", construct, p.Pos(call.Pos()), shortFn(g)+" on the dynamic type of an element", "the encoder is made from "+bad+": for elements handed over in a []interface{} that type is interface{}, the constructor fails and a valid index/element list is rejected")
+		}
+	}
+	if n == 0 {
+		r.Unk("element encoder construction", "", "package array constructs no TypeEncoder (anchor not found)")
+	}
 }
